@@ -5,6 +5,7 @@ import (
 	"math/rand"
 	"os"
 	"path/filepath"
+	"strings"
 	"sync"
 	"time"
 )
@@ -78,10 +79,21 @@ func getFilePath(path string, suffix string) string {
 }
 
 func RLockExists(path string) bool {
-	dir := filepath.Dir(path)
-	basename := filepath.Base(path)
-	match, _ := filepath.Glob(filepath.Join(dir, "."+basename) + ".*" + RLockFileSuffix)
-	return match != nil
+	// The directory is listed and the names are compared literally: a glob pattern built from the path would
+	// give the characters '[', '*', '?' and '\' in the table's name or directory a meaning of their own, and
+	// the read-lock files of such a table would never be found.
+	prefix := "." + filepath.Base(path) + "."
+	entries, err := os.ReadDir(filepath.Dir(path))
+	if err != nil {
+		return false
+	}
+	for _, entry := range entries {
+		name := entry.Name()
+		if len(prefix)+len(RLockFileSuffix) <= len(name) && strings.HasPrefix(name, prefix) && strings.HasSuffix(name, RLockFileSuffix) {
+			return true
+		}
+	}
+	return false
 }
 
 func LockExists(path string) bool {
